@@ -1,9 +1,10 @@
 import UtpVerif.Model.VSock
+import UtpVerif.Lemmas.Segments
 /-!
 # C17 — handshake and teardown follow the uTP state machine on the wire
 -/
 namespace UtpVerif.Props.C17
-open UtpVerif.Model UtpVerif.Model.VSock UtpVerif.Gen
+open UtpVerif.Model UtpVerif.Model.VSock UtpVerif.Gen UtpVerif.Lemmas.Segments UtpVerif.Model.Segments
 
 theorem constants_pinned : SYNACK_RESEND_INTERNAL = 200 * 1000000 ∧ TYPE_ST_FIN = 1 ∧ TYPE_ST_STATE = 2 ∧
     TYPE_ST_RESET = 3 ∧ TYPE_ST_SYN = 4 ∧ TYPE_ST_DATA = 0 := by decide
@@ -189,4 +190,21 @@ theorem fin_not_withheld_after_full_ack (lastSent fin : Nat) (hl : lastSent < 65
     revert hbehind htol hc
     repeat' split
     all_goals (intros; omega)
+/-- **The FIN that answers a remote FIN never shares its number with a queued segment's bytes (D22).** When the
+remote's in-sequence FIN is accepted in Established, the segment queue afterwards contains no never-transmitted
+segment: what was queued but never sent has gone back to the unsegmented part of the stream (the byte accounting
+invariant is kept, `snd_una` is unchanged), so an acknowledgement of our FIN can only remove segments that were
+really transmitted. -/
+theorem remote_fin_leaves_no_unsent_segment (v : VSock) (hdr : Header) (hst : v.state = .established)
+    (hfin : hdr.htype = Gen.TYPE_ST_FIN) (hseq : hdr.seqNr = wadd v.lastConsumedRemoteSeqNr 1) (hS : SInv v.segs) :
+    let v' := (v.stateGate hdr).vsock
+    trailingUnsent v'.segs.segs = 0 ∧ SInv v'.segs ∧ v'.segs.sndUna = v.segs.sndUna ∧
+      v'.state = .lastAck v.seqNr hdr.seqNr := by
+  have hne1 : hdr.htype ≠ Gen.TYPE_ST_RESET := by rw [hfin]; decide
+  have hne2 : hdr.htype ≠ Gen.TYPE_ST_SYN := by rw [hfin]; decide
+  obtain ⟨h1, h2, _, _, _, h6⟩ := discardUnsent_ok v.segs hS
+  unfold stateGate
+  simp only [hst, hne1, hne2, hfin, hseq, if_false, if_true, ne_eq, not_true_eq_false, Gate.vsock]
+  exact ⟨h6, h1, h2, rfl⟩
+
 end UtpVerif.Props.C17
